@@ -21,7 +21,7 @@ CHECKS = {
              "{wait 0/2/INF, terminate, kill, three stop sequences}, every point at which the child's end can be released relative to the "
              "library's poll/kill/waitpid/close calls (all alternatives at blocked calls, up to 2 scheduling deviations elsewhere) and, in the "
              "thorough tier, every single fault at poll/waitpid/kill (waitpid also answering ECHILD: somebody else reaped the child, after which no status may "
-             "ever be returned) and two-handle configurations (the first started with input and given up while the second child runs): status equals the ending the harness caused, is never returned while the "
+             "ever be returned) and two-handle configurations (the first started with input and given up while the second child runs; a deadline that has passed before/after the status exists): status equals the ending the harness caused, is never returned while the "
              "child ledger says running, is stable with zero further system calls, exactly one successful reap, no zombie."),
     "C04": dict(
         cat="model_checking", design="3/C04",
@@ -72,7 +72,7 @@ CHECKS = {
         text="The C07 space through reproc_start(options.stop) + reproc_destroy (no result: judged from the child ledger, signals and virtual return "
              "time), the default policy (returns only with the child reaped, SIGTERM not before the deadline and never without one), destroy on "
              "NULL / never started / failed start / rejected options (no kill, poll, waitpid or close; ledgers clean), the forked side (h_start), and a "
-             "handle whose first start failed with a deadline before the real start without one, the deadline given as REPROC_INFINITE, and a handle whose child has exited but whose reap was "
+             "handle whose first start failed with a deadline before the real start without one, the deadline given as REPROC_INFINITE, a clock that jumps 7 ms at one of the library's clock reads (order, completeness and liveness only), and a handle whose child has exited but whose reap was "
              "interrupted (an earlier wait returned EINTR)."),
     "C08": dict(
         cat="model_checking", design="3/C08",
@@ -119,7 +119,7 @@ CHECKS = {
         cat="model_checking", design="3/C17",
         technique="stateless model checking of the real library with a blocked-interval log: every state of the pipe x operation x mode, livelock guard on busy waits",
         text="nonblocking on/off x pipe {empty, partly filled, full (one page), far side closed} x {read stdout, read stderr, write 1 / cap / 3cap bytes} x child "
-             "{idle, one more step} and start-up input of {0,1,cap-1,cap,64Ki,64Ki+1,256Ki} bytes in both modes, followed by a read on stdout and stderr. Nonblocking: no intercepted call is ever found "
+             "{idle, one more step} and start-up input of {0,1,cap-1,cap,64Ki,64Ki+1,256Ki} bytes in both modes, followed by a read on stdout and stderr; far side closed with standard descriptors of the parent closed beforehand (closed-pipe error required). Nonblocking: no intercepted call is ever found "
              "blocked, results are a count / EPIPE / EWOULDBLOCK consistent with FIONREAD and the child's script position; input never blocks start and is "
              "either delivered completely (child reads all of it, sees EOF) or start fails with no child; blocking: every blocked interval is ended by a step "
              "of the child. A call that issues >20000 system calls without blocking or returning is reported as a busy wait."),
@@ -136,7 +136,7 @@ CHECKS = {
         cat="model_checking", design="3/C11",
         technique="exhaustive enumeration of parent descriptor pools x limits x redirect kinds against the real library and a real exec; the child lists every descriptor it was started with",
         text="Descriptor limits {32, 64, 256} (thorough: 1024, 2048) x every subset of extra parent descriptors at {3, 4, 11, L-2, L-1} each absent / open / "
-             "open+close-on-exec (243) x redirects {default, pipes, discard, user handles, user FILEs without close-on-exec}, plus the whole C10 space: "
+             "open+close-on-exec (243), plus an O_PATH directory handle, x redirects {default, pipes, discard, user handles, user FILEs without close-on-exec}, plus the whole C10 space: "
              "the started program sees 0, 1, 2 and exactly one more descriptor, the write end of a pipe whose read end the parent holds and that is none "
              "of the streams; the caller's own descriptors are still open afterwards; two starts with the limit raised in between, the second also in fork mode "
              "while the first child runs, also with stderr taken from standard descriptor 1 (the forked side lists its descriptors); the descriptor limit unreadable or infinite in the forked child with the caller's descriptors above 1024. Concurrent starts from threads are decided by the C20 harness."),
@@ -158,7 +158,7 @@ CHECKS = {
              "environments {empty, 1, 40 entries, duplicate key}; program named absolutely / ./dir/prog / dir/prog / ../x/prog / by bare name through PATH "
              "x working_directory {unset, relative, with spaces, absolute} x EXTEND/EMPTY, a decoy program of the same relative name under each child directory, "
              "and every single failure of getcwd/malloc/calloc/realloc during the start (a clean error or the right program); parent cwd lengths 100..20000 bytes around PATH_MAX under "
-             "ASan/UBSan. Oracle: the helper's argv/envp/getcwd byte for byte; the helper image really ran (resolved against the parent's cwd); beyond "
+             "ASan/UBSan; argument and environment containers through reproc++ (h_c03_cxx, sanitizer build, entry lengths around allocator size classes). Oracle: the helper's argv/envp/getcwd byte for byte; the helper image really ran (resolved against the parent's cwd); beyond "
              "PATH_MAX a negative result, no child, no sanitizer report. Outside the bound: strings longer than 2 bytes beyond the two long cases."),
     "C14": dict(
         cat="model_checking", design="3/C14 + Appendix E",
@@ -176,8 +176,8 @@ CHECKS = {
         text="process.windows.c and utf.windows.c are compiled unchanged with -D_WIN32 against /verif/winstub/windows.h; the real process_start() runs and a "
              "recording CreateProcessW captures the command line and the environment block. Every vector of 1 argument of length <=6, 2 arguments <=3, 3 "
              "arguments <=2 (thorough: 8/4/3; 157 M vectors) over {a, space, tab, newline, vertical tab, double quote, backslash} including empty strings, for "
-             "argv[0] with and without a space, plus 2-/3-/4-byte UTF-8 characters next to quotes and backslashes, must split back into exactly argv; 948 "
-             "environment cases (parent blocks of 0/1/3 entries x EXTEND/EMPTY x every list of 0..3 extra entries over 5 shapes, NULL vs empty list, invalid "
+             "argv[0] with and without a space, plus 2-/3-/4-byte UTF-8 characters next to quotes and backslashes, must split back into exactly argv; 2412 "
+             "environment cases (parent blocks of 0/1/3 entries x EXTEND/EMPTY x every list of 0..3 extra entries over 7 shapes incl. entries without '=', NULL vs empty list, invalid "
              "UTF-8 => clean failure) must give parent entries then extra entries, each NUL-terminated, one closing NUL; ASan proves the buffers are "
              "large enough. Outside the bound: longer strings (the property's 'longer ones at random' is sampling, a different family, not done).",
         note="Trusted base: gcc, ASan/UBSan, the stub Win32 layer (a strict UTF-8 -> UTF-16 converter, recording CreateProcessW) and the splitting oracle in "
@@ -203,7 +203,7 @@ CHECKS = {
              "shows no descriptor of the other thread's pipes, and right after a thread's close(IN) its own child sees EOF with nobody else moving - all "
              "schedules with <=1 preemption (thorough <=2), emulated and real exec. (A) writer thread (3 + cap+1 bytes, close) and reader thread on one "
              "echo child, <=2 (3) preemptions: reader gets exactly the writer's bytes. (C) reproc_strerror from two threads with a switch between call "
-             "and use. (G) two threads running short life cycles with one close() of the library interrupted. (E) one thread whose starts fail after the fork beside another thread's whole life cycle: every waitpid/kill names the caller's own child. (D) two threads each draining its own echo child with reproc_drain, the sink yielding before it looks at its chunk: only its own bytes. "
+             "and use. (H) a writer and a waiter on one child. (G) two threads running short life cycles with one close() of the library interrupted. (E) one thread whose starts fail after the fork beside another thread's whole life cycle: every waitpid/kill names the caller's own child. (D) two threads each draining its own echo child with reproc_drain, the sink yielding before it looks at its chunk: only its own bytes. "
              "Data races below call granularity are looked for by a free-running TSan build (60 / 400 runs of three concurrent life cycles, two concurrent drains of 64 KiB and a "
              "reader/writer pair on real cat/sh children): a monitor, not an enumeration."),
 }
